@@ -28,8 +28,32 @@ Fixpoint b_get {V} (b : bucket V) (name : bytes) : option V :=
   | (n, v) :: b' => if beq name n then Some v else b_get b' name
   end.
 
+(* What fs.WalkDir meets in the upload bucket, in walk order: a stored object,
+   or a directory that cannot be listed (EACCES on a stray .snapshot/.Trash, a
+   name os.DirFS refuses, a directory removed meanwhile).  For the latter
+   WalkDir calls the callback with the error; FSBucket.Objects' callback
+   answers nil for a directory, so the walk GOES ON. *)
+Inductive uentry := UFile (name data : bytes) | UBadDir (name : bytes).
+
+Fixpoint walk (es : list uentry) (prefix : bytes) : bucket bytes :=
+  match es with
+  | [] => []
+  | UFile n d :: r => if has_prefix n prefix then (n, d) :: walk r prefix else walk r prefix
+  | UBadDir _ :: r => walk r prefix
+  end.
+
+(* where the unlistable directories fall among the objects: any interleaving
+   (pos: true = the next entry met is the next stray directory) *)
+Fixpoint weave (pos : list bool) (fs bs : list uentry) : list uentry :=
+  match pos with
+  | [] => fs ++ bs
+  | true :: p => match bs with b :: bs' => b :: weave p fs bs' | [] => weave p fs [] end
+  | false :: p => match fs with f :: fs' => f :: weave p fs' bs | [] => weave p [] bs end
+  end.
+
 Record wstate := mkWS {
   ws_upload : bucket bytes;        (* stored reports: <date>/<X>.json -> body *)
+  ws_stray : list bytes;           (* unlistable directories lying in the upload bucket *)
   ws_merged : bucket bytes;        (* <date>.json -> one line per report *)
   ws_chart : bucket chartdata      (* <date>.json / <start>_<end>.json -> chart object *)
 }.
@@ -37,6 +61,7 @@ Record wstate := mkWS {
 Inductive wop :=
 | OpPut (name data : bytes)        (* the upload server stores (or re-stores) a report *)
 | OpDel (name : bytes)             (* a stored report is withdrawn *)
+| OpStray (name : bytes)           (* an unlistable directory appears in the upload bucket *)
 | OpMerge (date : bytes)           (* /merge/?date= *)
 | OpChart (start end_ : Z).        (* /chart/?start=&end= *)
 
@@ -51,17 +76,21 @@ Section Store.
   Variable dec : bytes -> option R.
   Variable proj : R -> report.
   Variable ord : bucket bytes -> bucket bytes.       (* listing order of Objects(prefix) *)
+  Variable pos : list bool.                          (* where the stray directories fall in the walk *)
   Variable it : iter.
   Variables lts ltg : bytes -> bytes -> bool.
   Variable cfg : config.
 
   (* s.Upload.Objects(ctx, date): the stored objects whose name starts with date *)
-  Definition day_objects (up : bucket bytes) (date : bytes) : list bytes :=
-    map snd (ord (filter (fun nv => has_prefix (fst nv) date) up)).
+  Definition day_entries (st : wstate) : list uentry :=
+    weave pos (map (fun nv => UFile (fst nv) (snd nv)) (ord (ws_upload st))) (map UBadDir (ws_stray st)).
+
+  Definition day_objects (st : wstate) (date : bytes) : list bytes :=
+    map snd (walk (day_entries st) date).
 
   Definition do_merge (st : wstate) (date : bytes) : wstate * wresp :=
-    let '(file, count, ok) := merge R enc dec (day_objects (ws_upload st) date) in
-    (mkWS (ws_upload st) (b_put (date ++ json_ext) file (ws_merged st)) (ws_chart st), RespMerge count ok).
+    let '(file, count, ok) := merge R enc dec (day_objects st date) in
+    (mkWS (ws_upload st) (ws_stray st) (b_put (date ++ json_ext) file (ws_merged st)) (ws_chart st), RespMerge count ok).
 
   Definition read_state_day (st : wstate) (day : Z) : read_result :=
     match b_get (ws_merged st) (fmt_date day ++ json_ext) with
@@ -72,14 +101,15 @@ Section Store.
   Definition do_chart (st : wstate) (start end_ : Z) : wstate * wresp :=
     let r := handle_chart it lts ltg cfg (read_state_day st) start end_ in
     match r with
-    | ChartOk name cd => (mkWS (ws_upload st) (ws_merged st) (b_put name cd (ws_chart st)), RespChart r)
+    | ChartOk name cd => (mkWS (ws_upload st) (ws_stray st) (ws_merged st) (b_put name cd (ws_chart st)), RespChart r)
     | _ => (st, RespChart r)
     end.
 
   Definition step (st : wstate) (o : wop) : wstate * wresp :=
     match o with
-    | OpPut name data => (mkWS (b_put name data (ws_upload st)) (ws_merged st) (ws_chart st), RespNone)
-    | OpDel name => (mkWS (b_del name (ws_upload st)) (ws_merged st) (ws_chart st), RespNone)
+    | OpPut name data => (mkWS (b_put name data (ws_upload st)) (ws_stray st) (ws_merged st) (ws_chart st), RespNone)
+    | OpDel name => (mkWS (b_del name (ws_upload st)) (ws_stray st) (ws_merged st) (ws_chart st), RespNone)
+    | OpStray name => (mkWS (ws_upload st) (name :: ws_stray st) (ws_merged st) (ws_chart st), RespNone)
     | OpMerge date => do_merge st date
     | OpChart s e => do_chart st s e
     end.
@@ -93,4 +123,17 @@ Section Store.
     end.
 End Store.
 
-Definition ws_empty : wstate := mkWS [] [] [].
+Definition ws_empty : wstate := mkWS [] [] [] [].
+
+(* handleCopy: for every day of the range, every object of the source bucket
+   whose name starts with the day is written to the destination (concurrently
+   in the code; each name is written with its source content) *)
+Definition range_days (start end_ : Z) : list Z :=
+  map (fun i => (start + Z.of_nat i)%Z) (seq 0 (Z.to_nat (end_ - start + 1))).
+
+Definition copy_day (ord : bucket bytes -> bucket bytes) (src dst : bucket bytes) (day : Z) : bucket bytes :=
+  fold_left (fun d nv => b_put (fst nv) (snd nv) d)
+            (ord (filter (fun nv : bytes * bytes => has_prefix (fst nv) (fmt_date day)) src)) dst.
+
+Definition copy_range (ord : bucket bytes -> bucket bytes) (src dst : bucket bytes) (start end_ : Z) : bucket bytes :=
+  fold_left (copy_day ord src) (range_days start end_) dst.
